@@ -667,6 +667,44 @@ func (e *Engine) cellVars(fn *ssa.Function) map[string]*ssa.Alloc {
 	return m
 }
 
+var uniqueRefCache = map[*ssa.Function]map[string]ssa.Value{}
+
+func (e *Engine) uniqueRefs(fn *ssa.Function) map[string]ssa.Value {
+	if m, ok := uniqueRefCache[fn]; ok {
+		return m
+	}
+	m := map[string]ssa.Value{}
+	bad := map[string]bool{}
+	for _, b := range fn.Blocks {
+		for _, in := range b.Instrs {
+			d, ok := in.(*ssa.DebugRef)
+			if !ok || d.IsAddr {
+				continue
+			}
+			obj, ok := d.Object().(*types.Var)
+			if !ok || obj.IsField() {
+				continue
+			}
+			if _, isConst := d.X.(*ssa.Const); isConst {
+				continue
+			}
+			if _, isPhi := d.X.(*ssa.Phi); isPhi {
+				bad[obj.Name()] = true
+				continue
+			}
+			if prev, ok := m[obj.Name()]; ok && prev != d.X {
+				bad[obj.Name()] = true
+			}
+			m[obj.Name()] = d.X
+		}
+	}
+	for n := range bad {
+		delete(m, n)
+	}
+	uniqueRefCache[fn] = m
+	return m
+}
+
 var loopCache = map[*ssa.Function][]*loopInfo{}
 
 func (e *Engine) loopsOf(fn *ssa.Function) []*loopInfo {
@@ -731,6 +769,19 @@ func (st *State) loopEnv(fr *Frame, li *loopInfo) *Env {
 			}
 		} else {
 			env.vars[name] = envVar{d.v, d.t}
+		}
+	}
+	// locals every non-constant reference of which denotes one and the same SSA value (single assignment, e.g.
+	// m := map[K]V{}): visible as soon as that value has been computed
+	for name, v := range st.e.uniqueRefs(fr.fn) {
+		if _, taken := env.vars[name]; taken {
+			continue
+		}
+		if _, taken := env.cells[name]; taken {
+			continue
+		}
+		if sv, ok := fr.vals[v]; ok {
+			env.vars[name] = envVar{sv, v.Type()}
 		}
 	}
 	// phis of every open loop of this function are visible as name<ordinal> (idx3, dest2, ...)
@@ -1395,6 +1446,17 @@ func (e *Engine) entModset(callee *ssa.Function) ([]string, bool) {
 	case "Scan":
 		return []string{"S:dbfailed", "F:ent.*", "B:*", "E:*"}, true
 	case "Save", "Exec":
+		if (kind == "Update" || kind == "UpdateOne") && callee.Name() == "Exec" {
+			// an UPDATE that returns nothing: rows of its own table only
+			if m := entRecvRe.FindStringSubmatch(typeKey(callee.Signature.Recv().Type())); m != nil {
+				if t := e.ent.ByEntity[m[1]]; t != nil {
+					return []string{"T:" + t.Name + ":*", "S:dbfailed"}, true
+				}
+			}
+		}
+		if (kind == "Delete" || kind == "DeleteOne") && callee.Name() == "Exec" {
+			return []string{"T:*", "S:dbfailed"}, true
+		}
 		return append([]string{"T:*", "S:dbfailed", "CB:*"}, e.entAllocPats()...), true
 	case "OnCommit", "OnRollback":
 		return []string{"S:wake_on_commit"}, true
